@@ -112,6 +112,13 @@ TBook ==
   /\ slots' = [slots EXCEPT ![Ev.a] = V(Ev.a)]
   /\ UNCHANGED <<files, learnMemo, actMemo, own>> /\ Mark(Ev.a, "book")
 
+\* acting in training mode may only update algorithm-specific statistics (e.g. the wrapper's running mean / variance)
+TAct ==
+  /\ Ev.op = "act" /\ Common({Ev.a})
+  /\ Check("acting changes nothing but running statistics", V(Ev.a) = [slots[Ev.a] EXCEPT !.aux = V(Ev.a).aux])
+  /\ slots' = [slots EXCEPT ![Ev.a] = V(Ev.a)]
+  /\ UNCHANGED <<files, learnMemo, actMemo, own>> /\ Mark(Ev.a, "act")
+
 TSave ==
   /\ Ev.op = "save" /\ Common({})
   /\ Save(Ev.a, Ev.f)
@@ -146,7 +153,7 @@ TDiscard ==
 
 TAccept == /\ l = Len(T.ev) + 1 /\ PrintT(<<"ACCEPT", tid>>) /\ l' = l + 1 /\ UNCHANGED <<vars, tid>>
 TNext == \/ /\ l <= Len(T.ev)
-            /\ (TCreate \/ TClone \/ TLearn \/ TMutate \/ TMutPop \/ TBook \/ TSave \/ TLoadNew \/ TLoadInto \/ TDiscard)
+            /\ (TCreate \/ TClone \/ TLearn \/ TMutate \/ TMutPop \/ TAct \/ TBook \/ TSave \/ TLoadNew \/ TLoadInto \/ TDiscard)
             /\ l' = l + 1 /\ UNCHANGED tid
          \/ TAccept
 TSpec == TInit /\ [][TNext]_tvars
